@@ -20,181 +20,181 @@ theorem fld_w64 : Nat.toUInt64 64 = 64 := rfl
 /-- bitfieldReverse<UInt8>: bit n of the result is bit 7-n of the argument -/
 theorem bitfieldReverse_U8_ok (v : UInt8) : (bitfieldReverse_U8 v).toUInt64 = Spec.reverse 8 v.toUInt64 := by
   simp only [bitfieldReverse_I8, bitfieldReverse_U8, revStep8, Spec.reverse, reverseFrom, bit, fld_w8, fld_w16, fld_w32, fld_w64]
-  bv_decide
+  bv_decide (config := { timeout := 180 })
 
 /-- bitfieldExtract<UInt8>: for 0 ≤ offset, 0 ≤ bits, offset+bits ≤ 8 the result is the field, zero-extended -/
 theorem bitfieldExtract_U8_ok (v : UInt8) (o b : Int32) (h : inDomain 8 o b = true) :
     (bitfieldExtract_U8 v o b).toUInt64 = Spec.extract false 8 v.toUInt64 o.toUInt32.toUInt64 b.toUInt32.toUInt64 := by
   simp only [inDomain] at h
   simp only [bitfieldExtract_U8, Spec.extract, extractFrom, extractBit, bit, Bool.true_and, Bool.false_and]
-  bv_decide
+  bv_decide (config := { timeout := 180 })
 
 /-- bitfieldInsert<UInt8>: on the same domain, bits [offset, offset+bits) come from insert, the others from base -/
 theorem bitfieldInsert_U8_ok (x y : UInt8) (o b : Int32) (h : inDomain 8 o b = true) :
     (bitfieldInsert_U8 x y o b).toUInt64 = Spec.insert 8 x.toUInt64 y.toUInt64 o.toUInt32.toUInt64 b.toUInt32.toUInt64 := by
   simp only [inDomain] at h
   simp only [bitfieldInsert_I8, bitfieldInsert_U8, mask_U8, Spec.insert, insertFrom, insertBit, bit]
-  bv_decide
+  bv_decide (config := { timeout := 180 })
 
 /-- bitfieldReverse<Int8>: bit n of the result is bit 7-n of the argument -/
 theorem bitfieldReverse_I8_ok (v : Int8) : (bitfieldReverse_I8 v).toUInt8.toUInt64 = Spec.reverse 8 v.toUInt8.toUInt64 := by
   simp only [bitfieldReverse_I8, bitfieldReverse_U8, revStep8, Spec.reverse, reverseFrom, bit, fld_w8, fld_w16, fld_w32, fld_w64]
-  bv_decide
+  bv_decide (config := { timeout := 180 })
 
 /-- bitfieldExtract<Int8>: for 0 ≤ offset, 0 ≤ bits, offset+bits ≤ 8 the result is the field, sign-extended (0 for bits = 0) -/
 theorem bitfieldExtract_I8_ok (v : Int8) (o b : Int32) (h : inDomain 8 o b = true) :
     (bitfieldExtract_I8 v o b).toUInt8.toUInt64 = Spec.extract true 8 v.toUInt8.toUInt64 o.toUInt32.toUInt64 b.toUInt32.toUInt64 := by
   simp only [inDomain] at h
   simp only [bitfieldExtract_I8, Spec.extract, extractFrom, extractBit, bit, Bool.true_and, Bool.false_and]
-  bv_decide
+  bv_decide (config := { timeout := 180 })
 
 /-- bitfieldInsert<Int8>: on the same domain, bits [offset, offset+bits) come from insert, the others from base -/
 theorem bitfieldInsert_I8_ok (x y : Int8) (o b : Int32) (h : inDomain 8 o b = true) :
     (bitfieldInsert_I8 x y o b).toUInt8.toUInt64 = Spec.insert 8 x.toUInt8.toUInt64 y.toUInt8.toUInt64 o.toUInt32.toUInt64 b.toUInt32.toUInt64 := by
   simp only [inDomain] at h
   simp only [bitfieldInsert_I8, bitfieldInsert_U8, mask_U8, Spec.insert, insertFrom, insertBit, bit]
-  bv_decide
+  bv_decide (config := { timeout := 180 })
 
 /-- on the domain, with bits > 0 (bits = 0 returns early), every shift count of bitfieldExtract/Insert<8-bit> is below 8:
     no shift by the full width (undefined behaviour in C++) is executed -/
 theorem field8_shift_in_range (o b : Int32) (h : inDomain 8 o b = true) (hb : (b ≤ 0) = false) :
     ((8 - o - b).toInt8.toUInt8 < 8 ∧ (8 - b).toInt8.toUInt8 < 8 ∧ o.toInt8.toUInt8 < 8) := by
   simp only [inDomain] at h
-  bv_decide
+  bv_decide (config := { timeout := 180 })
 
 /-- bitfieldReverse<UInt16>: bit n of the result is bit 15-n of the argument -/
 theorem bitfieldReverse_U16_ok (v : UInt16) : (bitfieldReverse_U16 v).toUInt64 = Spec.reverse 16 v.toUInt64 := by
   simp only [bitfieldReverse_I16, bitfieldReverse_U16, revStep16, Spec.reverse, reverseFrom, bit, fld_w8, fld_w16, fld_w32, fld_w64]
-  bv_decide
+  bv_decide (config := { timeout := 180 })
 
 /-- bitfieldExtract<UInt16>: for 0 ≤ offset, 0 ≤ bits, offset+bits ≤ 16 the result is the field, zero-extended -/
 theorem bitfieldExtract_U16_ok (v : UInt16) (o b : Int32) (h : inDomain 16 o b = true) :
     (bitfieldExtract_U16 v o b).toUInt64 = Spec.extract false 16 v.toUInt64 o.toUInt32.toUInt64 b.toUInt32.toUInt64 := by
   simp only [inDomain] at h
   simp only [bitfieldExtract_U16, Spec.extract, extractFrom, extractBit, bit, Bool.true_and, Bool.false_and]
-  bv_decide
+  bv_decide (config := { timeout := 180 })
 
 /-- bitfieldInsert<UInt16>: on the same domain, bits [offset, offset+bits) come from insert, the others from base -/
 theorem bitfieldInsert_U16_ok (x y : UInt16) (o b : Int32) (h : inDomain 16 o b = true) :
     (bitfieldInsert_U16 x y o b).toUInt64 = Spec.insert 16 x.toUInt64 y.toUInt64 o.toUInt32.toUInt64 b.toUInt32.toUInt64 := by
   simp only [inDomain] at h
   simp only [bitfieldInsert_I16, bitfieldInsert_U16, mask_U16, Spec.insert, insertFrom, insertBit, bit]
-  bv_decide
+  bv_decide (config := { timeout := 180 })
 
 /-- bitfieldReverse<Int16>: bit n of the result is bit 15-n of the argument -/
 theorem bitfieldReverse_I16_ok (v : Int16) : (bitfieldReverse_I16 v).toUInt16.toUInt64 = Spec.reverse 16 v.toUInt16.toUInt64 := by
   simp only [bitfieldReverse_I16, bitfieldReverse_U16, revStep16, Spec.reverse, reverseFrom, bit, fld_w8, fld_w16, fld_w32, fld_w64]
-  bv_decide
+  bv_decide (config := { timeout := 180 })
 
 /-- bitfieldExtract<Int16>: for 0 ≤ offset, 0 ≤ bits, offset+bits ≤ 16 the result is the field, sign-extended (0 for bits = 0) -/
 theorem bitfieldExtract_I16_ok (v : Int16) (o b : Int32) (h : inDomain 16 o b = true) :
     (bitfieldExtract_I16 v o b).toUInt16.toUInt64 = Spec.extract true 16 v.toUInt16.toUInt64 o.toUInt32.toUInt64 b.toUInt32.toUInt64 := by
   simp only [inDomain] at h
   simp only [bitfieldExtract_I16, Spec.extract, extractFrom, extractBit, bit, Bool.true_and, Bool.false_and]
-  bv_decide
+  bv_decide (config := { timeout := 180 })
 
 /-- bitfieldInsert<Int16>: on the same domain, bits [offset, offset+bits) come from insert, the others from base -/
 theorem bitfieldInsert_I16_ok (x y : Int16) (o b : Int32) (h : inDomain 16 o b = true) :
     (bitfieldInsert_I16 x y o b).toUInt16.toUInt64 = Spec.insert 16 x.toUInt16.toUInt64 y.toUInt16.toUInt64 o.toUInt32.toUInt64 b.toUInt32.toUInt64 := by
   simp only [inDomain] at h
   simp only [bitfieldInsert_I16, bitfieldInsert_U16, mask_U16, Spec.insert, insertFrom, insertBit, bit]
-  bv_decide
+  bv_decide (config := { timeout := 180 })
 
 /-- on the domain, with bits > 0 (bits = 0 returns early), every shift count of bitfieldExtract/Insert<16-bit> is below 16:
     no shift by the full width (undefined behaviour in C++) is executed -/
 theorem field16_shift_in_range (o b : Int32) (h : inDomain 16 o b = true) (hb : (b ≤ 0) = false) :
     ((16 - o - b).toInt16.toUInt16 < 16 ∧ (16 - b).toInt16.toUInt16 < 16 ∧ o.toInt16.toUInt16 < 16) := by
   simp only [inDomain] at h
-  bv_decide
+  bv_decide (config := { timeout := 180 })
 
 /-- bitfieldReverse<UInt32>: bit n of the result is bit 31-n of the argument -/
 theorem bitfieldReverse_U32_ok (v : UInt32) : (bitfieldReverse_U32 v).toUInt64 = Spec.reverse 32 v.toUInt64 := by
   simp only [bitfieldReverse_I32, bitfieldReverse_U32, revStep32, Spec.reverse, reverseFrom, bit, fld_w8, fld_w16, fld_w32, fld_w64]
-  bv_decide
+  bv_decide (config := { timeout := 180 })
 
 /-- bitfieldExtract<UInt32>: for 0 ≤ offset, 0 ≤ bits, offset+bits ≤ 32 the result is the field, zero-extended -/
 theorem bitfieldExtract_U32_ok (v : UInt32) (o b : Int32) (h : inDomain 32 o b = true) :
     (bitfieldExtract_U32 v o b).toUInt64 = Spec.extract false 32 v.toUInt64 o.toUInt32.toUInt64 b.toUInt32.toUInt64 := by
   simp only [inDomain] at h
   simp only [bitfieldExtract_U32, Spec.extract, extractFrom, extractBit, bit, Bool.true_and, Bool.false_and]
-  bv_decide
+  bv_decide (config := { timeout := 180 })
 
 /-- bitfieldInsert<UInt32>: on the same domain, bits [offset, offset+bits) come from insert, the others from base -/
 theorem bitfieldInsert_U32_ok (x y : UInt32) (o b : Int32) (h : inDomain 32 o b = true) :
     (bitfieldInsert_U32 x y o b).toUInt64 = Spec.insert 32 x.toUInt64 y.toUInt64 o.toUInt32.toUInt64 b.toUInt32.toUInt64 := by
   simp only [inDomain] at h
   simp only [bitfieldInsert_I32, bitfieldInsert_U32, mask_U32, Spec.insert, insertFrom, insertBit, bit]
-  bv_decide
+  bv_decide (config := { timeout := 180 })
 
 /-- bitfieldReverse<Int32>: bit n of the result is bit 31-n of the argument -/
 theorem bitfieldReverse_I32_ok (v : Int32) : (bitfieldReverse_I32 v).toUInt32.toUInt64 = Spec.reverse 32 v.toUInt32.toUInt64 := by
   simp only [bitfieldReverse_I32, bitfieldReverse_U32, revStep32, Spec.reverse, reverseFrom, bit, fld_w8, fld_w16, fld_w32, fld_w64]
-  bv_decide
+  bv_decide (config := { timeout := 180 })
 
 /-- bitfieldExtract<Int32>: for 0 ≤ offset, 0 ≤ bits, offset+bits ≤ 32 the result is the field, sign-extended (0 for bits = 0) -/
 theorem bitfieldExtract_I32_ok (v : Int32) (o b : Int32) (h : inDomain 32 o b = true) :
     (bitfieldExtract_I32 v o b).toUInt32.toUInt64 = Spec.extract true 32 v.toUInt32.toUInt64 o.toUInt32.toUInt64 b.toUInt32.toUInt64 := by
   simp only [inDomain] at h
   simp only [bitfieldExtract_I32, Spec.extract, extractFrom, extractBit, bit, Bool.true_and, Bool.false_and]
-  bv_decide
+  bv_decide (config := { timeout := 180 })
 
 /-- bitfieldInsert<Int32>: on the same domain, bits [offset, offset+bits) come from insert, the others from base -/
 theorem bitfieldInsert_I32_ok (x y : Int32) (o b : Int32) (h : inDomain 32 o b = true) :
     (bitfieldInsert_I32 x y o b).toUInt32.toUInt64 = Spec.insert 32 x.toUInt32.toUInt64 y.toUInt32.toUInt64 o.toUInt32.toUInt64 b.toUInt32.toUInt64 := by
   simp only [inDomain] at h
   simp only [bitfieldInsert_I32, bitfieldInsert_U32, mask_U32, Spec.insert, insertFrom, insertBit, bit]
-  bv_decide
+  bv_decide (config := { timeout := 180 })
 
 /-- on the domain, with bits > 0 (bits = 0 returns early), every shift count of bitfieldExtract/Insert<32-bit> is below 32:
     no shift by the full width (undefined behaviour in C++) is executed -/
 theorem field32_shift_in_range (o b : Int32) (h : inDomain 32 o b = true) (hb : (b ≤ 0) = false) :
     ((32 - o - b).toUInt32 < 32 ∧ (32 - b).toUInt32 < 32 ∧ o.toUInt32 < 32) := by
   simp only [inDomain] at h
-  bv_decide
+  bv_decide (config := { timeout := 180 })
 
 /-- bitfieldReverse<UInt64>: bit n of the result is bit 63-n of the argument -/
 theorem bitfieldReverse_U64_ok (v : UInt64) : (bitfieldReverse_U64 v) = Spec.reverse 64 v := by
   simp only [bitfieldReverse_I64, bitfieldReverse_U64, revStep64, Spec.reverse, reverseFrom, bit, fld_w8, fld_w16, fld_w32, fld_w64]
-  bv_decide
+  bv_decide (config := { timeout := 180 })
 
 /-- bitfieldExtract<UInt64>: for 0 ≤ offset, 0 ≤ bits, offset+bits ≤ 64 the result is the field, zero-extended -/
 theorem bitfieldExtract_U64_ok (v : UInt64) (o b : Int32) (h : inDomain 64 o b = true) :
     (bitfieldExtract_U64 v o b) = Spec.extract false 64 v o.toUInt32.toUInt64 b.toUInt32.toUInt64 := by
   simp only [inDomain] at h
   simp only [bitfieldExtract_U64, Spec.extract, extractFrom, extractBit, bit, Bool.true_and, Bool.false_and]
-  bv_decide
+  bv_decide (config := { timeout := 180 })
 
 /-- bitfieldInsert<UInt64>: on the same domain, bits [offset, offset+bits) come from insert, the others from base -/
 theorem bitfieldInsert_U64_ok (x y : UInt64) (o b : Int32) (h : inDomain 64 o b = true) :
     (bitfieldInsert_U64 x y o b) = Spec.insert 64 x y o.toUInt32.toUInt64 b.toUInt32.toUInt64 := by
   simp only [inDomain] at h
   simp only [bitfieldInsert_I64, bitfieldInsert_U64, mask_U64, Spec.insert, insertFrom, insertBit, bit]
-  bv_decide
+  bv_decide (config := { timeout := 180 })
 
 /-- bitfieldReverse<Int64>: bit n of the result is bit 63-n of the argument -/
 theorem bitfieldReverse_I64_ok (v : Int64) : (bitfieldReverse_I64 v).toUInt64 = Spec.reverse 64 v.toUInt64 := by
   simp only [bitfieldReverse_I64, bitfieldReverse_U64, revStep64, Spec.reverse, reverseFrom, bit, fld_w8, fld_w16, fld_w32, fld_w64]
-  bv_decide
+  bv_decide (config := { timeout := 180 })
 
 /-- bitfieldExtract<Int64>: for 0 ≤ offset, 0 ≤ bits, offset+bits ≤ 64 the result is the field, sign-extended (0 for bits = 0) -/
 theorem bitfieldExtract_I64_ok (v : Int64) (o b : Int32) (h : inDomain 64 o b = true) :
     (bitfieldExtract_I64 v o b).toUInt64 = Spec.extract true 64 v.toUInt64 o.toUInt32.toUInt64 b.toUInt32.toUInt64 := by
   simp only [inDomain] at h
   simp only [bitfieldExtract_I64, Spec.extract, extractFrom, extractBit, bit, Bool.true_and, Bool.false_and]
-  bv_decide
+  bv_decide (config := { timeout := 180 })
 
 /-- bitfieldInsert<Int64>: on the same domain, bits [offset, offset+bits) come from insert, the others from base -/
 theorem bitfieldInsert_I64_ok (x y : Int64) (o b : Int32) (h : inDomain 64 o b = true) :
     (bitfieldInsert_I64 x y o b).toUInt64 = Spec.insert 64 x.toUInt64 y.toUInt64 o.toUInt32.toUInt64 b.toUInt32.toUInt64 := by
   simp only [inDomain] at h
   simp only [bitfieldInsert_I64, bitfieldInsert_U64, mask_U64, Spec.insert, insertFrom, insertBit, bit]
-  bv_decide
+  bv_decide (config := { timeout := 180 })
 
 /-- on the domain, with bits > 0 (bits = 0 returns early), every shift count of bitfieldExtract/Insert<64-bit> is below 64:
     no shift by the full width (undefined behaviour in C++) is executed -/
 theorem field64_shift_in_range (o b : Int32) (h : inDomain 64 o b = true) (hb : (b ≤ 0) = false) :
     ((64 - o - b).toInt64.toUInt64 < 64 ∧ (64 - b).toInt64.toUInt64 < 64 ∧ o.toInt64.toUInt64 < 64) := by
   simp only [inDomain] at h
-  bv_decide
+  bv_decide (config := { timeout := 180 })
 
 end GlmVerif.C05
